@@ -150,6 +150,7 @@ def cmdUrlSet (a : List String) : String :=
       | "set_protocol" => some (Model.UrlRec.setProtocolR L t r v)
       | "set_host" => some (Model.UrlRec.setHostR false idna L t dflt r v)
       | "set_hostname" => some (Model.UrlRec.setHostR true idna L t dflt r v)
+      | "set_href" => some (Model.ParseSpecial.setHrefR idna L r v)
       | _ => none
     match res with
     | none => "bad-op"
@@ -160,6 +161,9 @@ def cmdUrlSet (a : List String) : String :=
       let probe : Option Bytes := match op with
         | "set_host" => findMarker idna ((Model.UrlRec.setHostR false idna 4294967295 t dflt r v).1.host.getD [])
         | "set_hostname" => findMarker idna ((Model.UrlRec.setHostR true idna 4294967295 t dflt r v).1.host.getD [])
+        | "set_href" => match Model.ParseSpecial.parseNoBase idna v with
+          | .ok r' => findMarker idna (r'.host.getD [])
+          | .invalid => none
         | _ => none
       match probe with
       | some d => s!"need-idna {hexs d}"
@@ -168,12 +172,26 @@ def cmdUrlSet (a : List String) : String :=
       s!"{hexs r'.path} {o r'.query} {o r'.hash} {if r'.opq then 1 else 0} r={if ok then 1 else 0}"
   | _ => "bad-op"
 
+/-- an argument "L=<n>" among the trailing arguments: the configured maximum length -/
+def limitArg (args : List String) : Option Nat :=
+  (args.find? (fun s => s.startsWith "L=")).bind (fun s => (s.drop 2).toNat?)
+
 /-- parse.special <hexinput> [hints] : the model of parse_url_impl<ada::url>(input, nullptr) on special non-file schemes -/
 def cmdParseSpecial (a : List String) : String :=
   match a with
   | input :: hintArgs =>
     let idna := mkIdna (parseHints hintArgs)
-    match Model.ParseSpecial.parseNoBase idna (unhexs input) with
+    let res := match limitArg hintArgs with
+      | some L => Model.ParseSpecial.parseNoBaseL idna L (unhexs input)
+      | none => Model.ParseSpecial.parseNoBase idna (unhexs input)
+    -- the probe is read off the unlimited result, so that a refusal for size cannot hide it
+    let probe := match Model.ParseSpecial.parseNoBase idna (unhexs input) with
+      | .ok r => findMarker idna (r.host.getD [])
+      | .invalid => none
+    match probe with
+    | some d => s!"need-idna {hexs d}"
+    | none =>
+    match res with
     | .invalid => "invalid"
     | .ok r =>
       match findMarker idna (r.host.getD []) with
@@ -193,11 +211,20 @@ def cmdParseBase (a : List String) : String :=
     let optB (s : String) : Option Bytes := if s == "!" then none else some (unhexs s)
     let b : Model.UrlRec.Rec := Model.UrlRec.Rec.mk (unhexs scheme) (special == "1") (unhexs user) (unhexs pass) (optB host) (optNat port)
       (unhexs path) (optB query) (optB hash) (opq == "1")
-    match Model.ParseSpecial.parseWithBase idna b (unhexs input) with
+    let res := match limitArg hintArgs with
+      | some L => Model.ParseSpecial.parseWithBaseL idna L b (unhexs input)
+      | none => Model.ParseSpecial.parseWithBase idna b (unhexs input)
+    -- the base's own host may contain the probe pattern only by accident; a host taken over from the base is not probed
+    let probe := match Model.ParseSpecial.parseWithBase idna b (unhexs input) with
+      | .ok r => if r.host == b.host then none else findMarker idna (r.host.getD [])
+      | .invalid => none
+    match probe with
+    | some d => s!"need-idna {hexs d}"
+    | none =>
+    match res with
     | .invalid => "invalid"
     | .ok r =>
-      -- the base's own host may contain the probe pattern only by accident; a host taken over from the base is not probed
-      match (if r.host == b.host then none else findMarker idna (r.host.getD [])) with
+      match (none : Option Bytes) with
       | some d => s!"need-idna {hexs d}"
       | none =>
         let o (x : Option Bytes) : String := match x with | some b => hexs b | none => "!"
